@@ -10,7 +10,11 @@ use crate::typemodel;
 use serde_json::json;
 use std::collections::BTreeSet;
 
-const TARGET_KINDS: [&str; 6] = ["struct", "generic-struct", "unit-enum", "tagged-enum", "newtype", "alias"];
+const TARGET_KINDS: [&str; 9] = [
+    "struct", "generic-struct", "unit-enum", "tagged-enum", "newtype", "alias",
+    // item-level decorators that send the definition through another writer of a backend
+    "newtype-kotlin-jvminline", "alias-kotlin-jvminline-redacted", "struct-swift-decorated-redacted",
+];
 const POSITIONS: [&str; 23] = [
     "array", "vec-of-array", "slice",
     "field", "vec", "option", "map-value", "generic-arg", "variant-payload", "variant-field", "alias-target", "self-box", "param-field", "param-payload", "param-variant-field", "param-alias",
@@ -89,6 +93,23 @@ fn target_item(c: &Case) -> Item {
         "unit-enum" => Item::enumm("Tgt", vec![Variant::new("One", VKind::Unit), Variant::new("Two", VKind::Unit)]),
         "tagged-enum" => Item::enumm("Tgt", vec![Variant::new("One", VKind::Unit), Variant::new("Sv", VKind::Struct(vec![Field::new("x", Ty::Prim("u32"))])), Variant::new("Nt", VKind::Newtype(Ty::Prim("String")))]),
         "newtype" => Item::new("Tgt", IKind::Newtype(Ty::Prim("String"))),
+        "newtype-kotlin-jvminline" => {
+            let mut i = Item::new("Tgt", IKind::Newtype(Ty::Prim("String")));
+            i.ts_args.push("kotlin = \"JvmInline\"".into());
+            i
+        }
+        "alias-kotlin-jvminline-redacted" => {
+            let mut i = Item::new("Tgt", IKind::Alias(Ty::Prim("String")));
+            i.ts_args.push("kotlin = \"JvmInline\"".into());
+            i.ts_args.push("redacted".into());
+            i
+        }
+        "struct-swift-decorated-redacted" => {
+            let mut i = Item::strukt("Tgt", vec![Field::new("x", Ty::Prim("u32"))]);
+            i.ts_args.push("swift = \"Equatable, Hashable\"".into());
+            i.ts_args.push("redacted".into());
+            i
+        }
         _ => Item::new("Tgt", IKind::Alias(Ty::Prim("String"))),
     };
     if c.renamed {
